@@ -111,7 +111,7 @@ func exportedCell(way string, i int) (name string, wrote bool, class string) {
 }
 
 func exportedMethodsFacts(sb *strings.Builder) {
-	ways := []string{"Close", "Serve+peerClose", "Serve+handlerErr"}
+	ways := []string{"Close", "Serve+peerClose", "Serve+handlerErr", "Abandon+Close"}
 	n := reflect.TypeOf(&xmpp.Session{}).NumMethod()
 	type res struct {
 		name  string
